@@ -37,6 +37,15 @@ def structural_cases(tier, rng):
         for s in (b"@", b"[", b"]", b".", b'"'):
             out.update([x + s, s + x, b"a" + x + s + b"b", b"a" + s + x + b"b", x + b"a@b.c" , b"a@b.c" + x, b"a" + s + x, x + s + b"a"])
     out.add(b"")
+    # names a direct caller may pass to the domain validators although they are no host names: words the library treats specially next
+    # to labels of 62..70, 127, 255, 256 and 1000 bytes (fixed-size label buffers, length pre-checks)
+    from .. import words
+    for w in words.RESERVED_WORDS + [b"com", b"net", b"org", b"xn--p1ai", b"arpa"]:
+        for n in (62, 63, 64, 65, 66, 70, 127, 128, 255, 256, 1000):
+            lab = b"a" * n
+            for d in (w + b"." + lab, lab + b"." + w, lab + b"." + w + b".com", w + b"." + lab + b".", b"x." + w + b"." + lab, w + b"-" + lab,
+                      (w * (n // len(w) + 1))[:n] + b".com", w + b"." + "\u00e9".encode() * (n // 2)):
+                out.add(b"u@" + d)
     return sorted(o for o in out if b"\x00" not in o)
 
 
@@ -68,13 +77,25 @@ def long_cases(tier, rng):
 def w_asan(exe, cases, variant, src):
     part = new_part()
     lines = []
+    owner = []
     for a in cases:
         lines.append(driver.A_line(a, sections=15))
         lines.append("L " + driver.hx(a))
         lines.append("D " + driver.hx(a))
+        owner += [a, a, a]
+        at = a.rfind(b"@")
+        if 0 <= at and len(a) < 70000:
+            # the two halves handed to the direct validators on their own (a caller of is_special_domain / is_ascii_domain / is_ipaddr
+            # passes a domain, not an address)
+            if at + 1 < len(a):
+                lines.append("D " + driver.hx(a[at + 1:]))
+                owner.append(a)
+            if at > 0:
+                lines.append("L " + driver.hx(a[:at]))
+                owner.append(a)
     recs, crashes = driver.run_lines_resilient(exe, lines, timeout=1200)
     for idx, sig, err in crashes:
-        a = cases[idx // 3] if idx >= 0 else b""
+        a = owner[idx] if idx >= 0 else b""
         part["viol"].append(("asan/%s" % sig, {"input": core.b2s(a)[:300], "hex": a.hex()[:2000], "build": variant},
                              {"stderr": err[-2500:], "op": lines[idx][:2] if idx >= 0 else "exit", "source": src}))
     n = sum(1 for r in recs if r is not None)
